@@ -1,7 +1,7 @@
 """C03 — format conformance."""
 from props import histprop
 PID = "C03"
-MIX = [("names", {}), ("file", {}), ("dirc", {}), ("full", {}), ("names", {"latin": True}), ("extbound", {}), ("names", {"dostype": 5, "latin": True}), ("dircspill", {}), ("ofsappend", {}), ("dircgrow", {})]
+MIX = [("names", {}), ("file", {}), ("dirc", {}), ("full", {}), ("names", {"latin": True}), ("extbound", {}), ("names", {"dostype": 5, "latin": True}), ("dircspill", {}), ("ofsappend", {}), ("dircgrow", {}), ("chainops", {})]
 RULE = ('every quiescent point (no handle open for writing; about every 6th operation and at the end) of seeded namespace/file/dircache/exhaustion histories: the image the C run left is decoded by the independent decoder (tools/fsck.py, validated on the five AmigaDOS-made dumps) and compared with the tree/byte-array models')
 def run(res):
     histprop.run(res, PID, MIX, {"C03", "BM"}, RULE, nquick=60, nthorough=1500)
